@@ -283,6 +283,11 @@ def apply_op(sd, ni, op):
             if was_expanded:
                 return str(bool(r)).lower(), f"SKIPMIN {i}"
             return str(bool(r)).lower(), f"SKIPMIN {i} " + " ".join(mins)
+        if kind == "skipminall":
+            # an early-stopped diagram completed by skip_to_minimal on every remaining stub
+            for j in [x for x in sd.node_ids() if not sd.node_data(x)["expanded"]]:
+                sd.skip_to_minimal(j)
+            return "true", None
         if kind == "skiprem":
             root = dict(sd.node_data(0)["space"])
             r = sd.skip_remaining()
@@ -517,7 +522,11 @@ def run_plain_history(case, judge_leaves=False, literal=True):
         else:
             lines.append(cmd)
             expect.append(("obs", f"{ret} {d}", f"op{k}:{op[0]}"))
-        if case.get("check", True):
+        if case.get("check", True) == "weak":
+            # diagrams built with shortcuts: the weak invariant (stubs have no successors, successors cover the minimal trap spaces)
+            lines.append("WEAK " + d)
+            expect.append(("judge", "OK", f"weak invariant after op{k}:{op[0]}"))
+        elif case.get("check", True):
             lines.append("CHECK " + d)
             expect.append(("judge", "OK", f"after op{k}:{op[0]}"))
         if case.get("judge_contract") and op[0] in ("bfs", "dfs"):
